@@ -284,8 +284,8 @@ class OrderTaint:
             ts = b.ty_str(c["ga"][0])
             if any(h in ts.split("<")[0] or ts.lstrip("&mut ").startswith(h) for h in HASH_TYPES):
                 return {("HASH", b.id, c["l"], "into_iter on " + ts[:60])}
-        if callee.endswith(REDUCTIONS):
-            return set()
+        if callee.endswith(REDUCTIONS) or callee.endswith("::from_residual"):
+            return set()  # reductions; the residual of `?` (None / Err) carries no sequence
         # collecting into an order-free container
         d = c["d"]
         if len(d) == 1:
@@ -315,8 +315,10 @@ class OrderTaint:
             return out
         # parameters that are plain references to whole objects (self, db, context) carry no sequence order
         t = b.local_ty(n)
-        if t[2] == "adt" and t[3] not in SEQ_TYPES and not any(b.ty(a)[3] in SEQ_TYPES for a in t[4]):
-            return out
+        is_seq = (t[2] == "adt" and (t[3] in SEQ_TYPES or any(b.ty(a)[3] in SEQ_TYPES for a in t[4]))) or \
+            t[2] in ("slice", "array", "param", "alias", "dyn")
+        if not is_seq:
+            return out  # scalars, strings and plain object references carry no sequence order
         for cb, bb, c in self.callers().get(b.id, []):
             if n - 1 < len(c["a"]):
                 out |= self.operand(cb, c["a"][n - 1], bb, depth + 1)
